@@ -438,7 +438,7 @@ def check(pid, tier, seed, replay=None, only_law=None, scale=1.0):
     per_law = {}
     crashed_laws = set()
     for r in results:
-        pl = per_law.setdefault(r["law"], dict(evaluations=0, nontrivial=0, skipped_known=0, hashes=set(), labels={}, known_hits={}, worst={}, samples=[], capped=False, exhaustive=True, kind="rc", wall=0.0, nt_rule=""))
+        pl = per_law.setdefault(r["law"], dict(exhausted=0, evaluations=0, nontrivial=0, skipped_known=0, hashes=set(), labels={}, known_hits={}, worst={}, samples=[], capped=False, exhaustive=True, kind="rc", wall=0.0, nt_rule=""))
         st = None
         if os.path.exists(r["out"]):
             try:
@@ -448,6 +448,7 @@ def check(pid, tier, seed, replay=None, only_law=None, scale=1.0):
         if st:
             pl["evaluations"] += st["evaluations"]
             pl["nontrivial"] += st["nontrivial"]
+            pl["exhausted"] += st.get("exhausted", 0)
             pl["skipped_known"] += st["skipped_known"]
             pl["hashes"].update(st["nt_hashes"])
             pl["capped"] |= st["nt_capped"]
@@ -582,7 +583,7 @@ def check(pid, tier, seed, replay=None, only_law=None, scale=1.0):
     for name, p in per_law.items():
         lawcov[name] = dict(kind=p["kind"], evaluations=p["evaluations"], nontrivial=p["nontrivial"], distinct_nontrivial=len(p["hashes"]),
                             distinct_capped=p["capped"], excluded_known=p["skipped_known"], excluded_by_finding=p["known_hits"],
-                            exhaustive=bool(p["kind"] == "enum" and p["exhaustive"]), coverage_guided_evaluations=p.get("fz_evaluations", 0), classes=p["labels"], worst_observed=p["worst"], nontrivial_rule=p["nt_rule"])
+                            exhaustive=bool(p["kind"] == "enum" and p["exhaustive"]), coverage_guided_evaluations=p.get("fz_evaluations", 0), choice_stream_exhausted=p["exhausted"], classes=p["labels"], worst_observed=p["worst"], nontrivial_rule=p["nt_rule"])
     rule = ("cases are decoded from rapidcheck-generated 64-bit choice vectors (kind rc, shrinkable) or from the complete draw tree (kind enum); "
             "a case is non-trivial by the per-law rule listed under laws.<law>.nontrivial_rule; distinct = distinct FNV-1a hash of the full textual case description, "
             "counted exactly per law up to 250000 per worker (beyond that not counted: lower bound)")
@@ -601,6 +602,9 @@ def check(pid, tier, seed, replay=None, only_law=None, scale=1.0):
         print("VIOLATION property=%s replay=%s law=%s :: %s" % (pid, os.path.relpath(rp, OUT) if OUT == VERIF else rp, law, msg[:400]))
     for m in machinery_errors:
         print("MACHINERY: " + m)
+    for name, p in per_law.items():
+        if p["kind"] == "rc" and p["evaluations"] and p["exhausted"] > 0.02 * p["evaluations"]:
+            print("NOTE: law %s asked for more choices than generated in %d of %d cases (raise its choicesPerCase)" % (name, p["exhausted"], p["evaluations"]))
     print("%s %s: %d cases, %d distinct non-trivial, %d laws, %d excluded as known, %.1fs" % (pid, tier, evals, dn, len(per_law), cov["excluded_known"], time.time() - t_start))
     if violations:
         return 1
